@@ -306,7 +306,9 @@ func c13Verifier(p *Prog) []*ssa.Function {
 		ps := f.Signature.Params()
 		return f.Parent() == nil && f.Signature.Recv() == nil && ps.Len() == 2 &&
 			c13IsPtrTo(ps.At(0).Type(), c13PkgHTTP, "Response") && c13IsNamed(ps.At(1).Type(), c13PkgDigest, "Digest") &&
-			c13ResultsAre(f, [2]string{"", "error"})
+			c13ResultsAre(f, [2]string{"", "error"}) &&
+			// it parses a digest (a generic status helper instantiated at digest.Digest has the same signature)
+			len(CallsTo(f, c13PkgDigest+".Parse", "digest.Parse")) > 0
 	})
 }
 
@@ -832,6 +834,9 @@ func c13ConsultedLists(fn *ssa.Function) []ssa.Value {
 	return out
 }
 
+// c13DefaultsSeen: default-list globals found behind normalising helpers (reset by c13R3).
+var c13DefaultsSeen []*ssa.Global
+
 // c13ListsFromOption: every consulted list of fn is the option (a value of
 // opt) or a package-level default used only behind len(option) == 0, and the
 // option itself is consulted.  "" when fine, else the reason.
@@ -848,6 +853,38 @@ func c13ListsFromOption(fn *ssa.Function, opt map[ssa.Value]bool) string {
 			if opt[v] || opt[lf.Val] {
 				sawOpt = true
 				continue
+			}
+			// a normalising helper: returns its argument, or a package default only when the argument is empty
+			if call, isCall := v.(*ssa.Call); isCall {
+				if N := StaticCallee(call); N != nil && inModule(N) && len(N.Blocks) > 0 && len(N.Params) == len(call.Call.Args) {
+					okN := false
+					for i, a := range call.Call.Args {
+						if !opt[a] {
+							continue
+						}
+						pal := Aliases(N.Params[i])
+						emptyN := c13FactEdgesOfConds(N, c13EmptyStringClass(pal))
+						okN = true
+						for _, ra := range RetAtoms(N, 0) {
+							rv := strip(ra.Val)
+							if pal[rv] {
+								sawOpt = true
+								continue
+							}
+							if ld, isLoad := rv.(*ssa.UnOp); isLoad && ld.Op == token.MUL {
+								if g, isG := ld.X.(*ssa.Global); isG && !c13AtomReach(N.Blocks[0], 0, ra, newCut().Edges(emptyN...)) {
+									sawDefault = true
+									c13DefaultsSeen = append(c13DefaultsSeen, g)
+									continue
+								}
+							}
+							okN = false
+						}
+					}
+					if okN {
+						continue
+					}
+				}
 			}
 			if ld, ok := v.(*ssa.UnOp); ok && ld.Op == token.MUL {
 				if _, isG := ld.X.(*ssa.Global); isG {
@@ -916,7 +953,9 @@ func c13R3(c *Ctx) {
 	why := ""
 	var decide []Edge // edges on which the predicate said "manifest"
 	var defaultsUsed []*ssa.Global
+	c13DefaultsSeen = nil
 	collectDefaults := func(fn *ssa.Function) {
+		defaultsUsed = append(defaultsUsed, c13DefaultsSeen...)
 		for _, l := range c13ConsultedLists(fn) {
 			for _, lf := range c13Leaves(l) {
 				if ld, ok := strip(lf.Val).(*ssa.UnOp); ok {
@@ -1139,6 +1178,19 @@ func c13URLSource(v ssa.Value) (kinds map[string]bool, params []*ssa.Parameter, 
 				kinds["next-link"] = true
 				continue
 			}
+			// the link handed back by a page fetcher parameter of a generic pagination driver
+			if call, ok := u.Tuple.(*ssa.Call); ok && u.Index == 0 && !call.Call.IsInvoke() && StaticCallee(call) == nil {
+				isFetcher := false
+				for _, fr := range Roots(call.Call.Value) {
+					if prm, isParam := fr.(*ssa.Parameter); isParam && c15IsFetcherType(prm.Type()) {
+						isFetcher = true
+					}
+				}
+				if isFetcher {
+					kinds["next-link"] = true
+					continue
+				}
+			}
 		case *ssa.Call:
 			if c13IsURLBuilder(StaticCallee(u)) {
 				kinds["builder"] = true
@@ -1284,13 +1336,70 @@ func c13R4(c *Ctx) {
 					}
 				}
 				callers := 0
+				var checkArg func(g *ssa.Function, arg ssa.Value, depth int)
+				checkArg = func(g *ssa.Function, arg ssa.Value, depth int) {
+					k2, p2, u2 := c13URLSource(arg)
+					if u2 != nil || k2["location"] {
+						ok, why = false, "caller "+FnName(g)+" passes a URL that is neither a builder result nor the previous page's link"
+						return
+					}
+					// the caller's own parameter: a page fetcher (closure handed to a generic driver, which calls it with
+					// the first URL it was given and then with the links the fetcher returns), or a driver's first-URL parameter
+					for _, q := range p2 {
+						if depth <= 0 {
+							ok, why = false, "caller "+FnName(g)+" passes on a URL parameter whose origin is not followed further"
+							return
+						}
+						qi := -1
+						for i, x := range g.Params {
+							if x == q {
+								qi = i
+							}
+						}
+						found := 0
+						if g.Parent() != nil { // closure: where is it handed to, and how is it called there
+							AllInstrs(g.Parent(), func(in ssa.Instruction) {
+								dc, isCall := in.(ssa.CallInstruction)
+								if !isCall {
+									return
+								}
+								D := StaticCallee(dc)
+								if D == nil || !inModule(D) || len(D.Blocks) == 0 {
+									return
+								}
+								for j, a := range dc.Common().Args {
+									mc, isMC := strip(a).(*ssa.MakeClosure)
+									if !isMC || mc.Fn != g || j >= len(D.Params) {
+										continue
+									}
+									dal := Aliases(D.Params[j])
+									for _, ci := range Calls(D, func(string) bool { return true }) {
+										if !ci.Common().IsInvoke() && dal[ci.Common().Value] && qi < len(ci.Common().Args) {
+											found++
+											ai := qi
+											if ai < len(ci.Common().Args) {
+												checkArg(D, ci.Common().Args[ai], depth-1)
+											}
+										}
+									}
+								}
+							})
+						}
+						for _, h := range c.P.FuncsOfPkg(c13PkgRemote) {
+							for _, call := range c13CallsToFn(h, g) {
+								found++
+								checkArg(h, call.Common().Args[qi], depth-1)
+							}
+						}
+						if found == 0 {
+							ok, why = false, "caller "+FnName(g)+" passes on a URL parameter for which no call was found"
+						}
+					}
+				}
 				for _, g := range c.P.FuncsOfPkg(c13PkgRemote) {
 					for _, call := range c13CallsToFn(g, f) {
 						callers++
-						k2, p2, u2 := c13URLSource(call.Common().Args[idx])
-						if u2 != nil || len(p2) > 0 || k2["location"] {
-							ok, why = false, "caller "+FnName(g)+" passes a URL that is neither a builder result nor the previous page's link"
-						}
+						checkArg(g, call.Common().Args[idx], 3)
 					}
 				}
 				if callers == 0 {
@@ -1602,6 +1711,17 @@ func c13Seek(c *Ctx) {
 				if u.Call.IsInvoke() && u.Call.Method.Name() == "Close" && fieldVal[u.Call.Value] {
 					isState = true
 				}
+				// a method of the reader that stores its fields (a state setter)
+				if h := StaticCallee(u); h != nil && h != fn && h != E && inModule(h) && len(h.Blocks) > 0 && len(u.Call.Args) > 0 && recvAl[u.Call.Args[0]] && len(h.Params) > 0 {
+					hr := Aliases(h.Params[0])
+					AllInstrs(h, func(hin ssa.Instruction) {
+						if st, ok := hin.(*ssa.Store); ok {
+							if fa, ok := st.Addr.(*ssa.FieldAddr); ok && hr[fa.X] {
+								isState = true
+							}
+						}
+					})
+				}
 			}
 			if !isState {
 				return
@@ -1637,7 +1757,40 @@ func c13Seek(c *Ctx) {
 	recv := seek.Params[0]
 	recvAl := Aliases(recv)
 	offLoads := c13FieldLoads(seek, pkg, tn, posField, func(b ssa.Value) bool { return recvAl[b] })
-	stores := c13FieldStores(seek, pkg, tn, posField, func(b ssa.Value) bool { return recvAl[b] })
+	// position stores: direct, or through a setter method of the receiver that stores one of its parameters
+	// into the position field on every path (swapBody(body, offset))
+	type posStore struct {
+		at  ssa.Instruction
+		val ssa.Value
+	}
+	var stores []posStore
+	for _, st := range c13FieldStores(seek, pkg, tn, posField, func(b ssa.Value) bool { return recvAl[b] }) {
+		stores = append(stores, posStore{st, st.Val})
+	}
+	for _, ci := range Calls(seek, func(string) bool { return true }) {
+		call, isCall := ci.(*ssa.Call)
+		h := StaticCallee(ci)
+		if !isCall || h == nil || !inModule(h) || len(h.Blocks) == 0 || h == seek || len(call.Call.Args) == 0 || !recvAl[call.Call.Args[0]] || len(h.Params) != len(call.Call.Args) {
+			continue
+		}
+		hr := Aliases(h.Params[0])
+		for _, st := range c13FieldStores(h, pkg, tn, posField, func(b ssa.Value) bool { return hr[b] }) {
+			for i, p := range h.Params {
+				if st.Val != ssa.Value(p) {
+					continue
+				}
+				all := true
+				for _, r := range Returns(h) {
+					if !MustPass(r, newCut().Instr(st)) {
+						all = false
+					}
+				}
+				if all {
+					stores = append(stores, posStore{call, call.Call.Args[i]})
+				}
+			}
+		}
+	}
 	// edges where the requested offset equals the current one
 	var same []Edge
 	for _, iff := range Ifs(seek) {
@@ -1656,7 +1809,7 @@ func c13Seek(c *Ctx) {
 	}
 	cutOff := newCut().Edges(same...)
 	for _, s := range stores {
-		cutOff.Instr(s)
+		cutOff.Instr(s.at)
 	}
 	bad = c13SuccessEscapes(seek, seek.Blocks[0], 0, cutOff, nil)
 	c.Check(RS, FnName(seek)+"|offset-recorded", seek.Pos(), bad == nil && len(stores) > 0,
@@ -1666,13 +1819,13 @@ func c13Seek(c *Ctx) {
 	okVal := true
 	for _, s := range stores {
 		for _, r := range Returns(seek) {
-			if !Reachable(s, r) || len(r.Results) != 2 {
+			if !Reachable(s.at, r) || len(r.Results) != 2 {
 				continue
 			}
 			if ErrNilStatus(r.Results[1], 0) == NonNil {
 				continue
 			}
-			if r.Results[0] != s.Val && !SameValue(r.Results[0], s.Val) {
+			if r.Results[0] != s.val && !SameValue(r.Results[0], s.val) {
 				okVal = false
 			}
 		}
